@@ -36,7 +36,9 @@ def gen_case(ctx, g, rng, logprobs=False, kinds=KINDS):
     pr = rc.problem(ctx, index % len(rc.PROBLEM_SHAPES))
     big = ctx.thorough and rng.random() < 0.15
     N = int(rng.integers(50, 5001 if big else 601))
-    lib = rc.Library(rng, pr, N, with_ln_prior=True)
+    foreign = bool(rng.random() < 0.35)
+    lib = rc.Library(rng, pr, N, with_ln_prior=True, foreign=foreign)
+    ctx.count('library_in_foreign_units' if foreign else 'library_in_internal_units')
     path = str(rng.choice(["inmem", "object", "file"], p=[0.4, 0.35, 0.25]))
     nonfinite = None
     if kind == "nonfinite":
